@@ -150,6 +150,11 @@ CanAlwaysFinish == \A c \in Clients :
 NoFrameForRejected ==
   [][\A c \in Clients : (inst[c].pc = "cmd" /\ inst[c].arg = "reject") => written'[c] = written[c]]_vars
 
+\* liveness: with a device that eventually answers (or ends the stream) and a client that keeps taking its steps, every call
+\* returns - no operation waits for a reply it never asked for, none loops
+ClientSteps(c) == LoginWrite(c) \/ CmdWrite(c) \/ FreeWrite(c) \/ Ret(c)
+FairSpec == Spec /\ \A c \in Clients : WF_vars(ClientSteps(c)) /\ WF_vars(Reply(c))
+EveryCallReturns == \A c \in Clients : (inst[c].pc # "idle") ~> (inst[c].pc = "idle")
 Bound == TRUE
 View == <<inst, sessions, nextSess, clock, ndone, eof, last, [c \in Clients |-> Len(written[c])]>>
 =============================================================================
